@@ -86,15 +86,38 @@ def _cofinite(t):
 
 
 def slow_compile(t, ci=False):
-    """An `or` of character classes, one of them co-finite (any, (~ ..)), standing under w/nocase: the
+    """An `or` whose trailing operands are all character classes, one of them co-finite (any, (~ ..)), standing under w/nocase: the
     compiler case-folds the ~1.1 million members one by one, ~100 s per SRE (measured).  These are kept
     out of the bulk strata (counted in `excluded`) and run as their own block NC in the thorough tier."""
     k = t[0]
     if k == "nocase":
         return slow_compile(t[1], True)
-    if k == "or" and ci and _class_like(t) and _cofinite(t):
-        return True
+    if k == "or" and ci:
+        # the compiler peels operands off the front; every all-class suffix (or y ..) is folded into one class
+        for i in range(1, len(t)):
+            tail = t[i:]
+            if all(_class_like(x) for x in tail) and any(_cofinite(x) for x in tail):
+                return True
     return any(slow_compile(c, ci) for c in M.children(t))
+
+
+def class_union(t):
+    """contains an `or` whose trailing >= 2 operands are all character classes, one of them co-finite: the
+    compiler merges them with char-set-union instead of building an alternation"""
+    if t[0] == "or":
+        for i in range(1, len(t) - 1):
+            tail = t[i:]
+            if all(_class_like(x) for x in tail) and any(_cofinite(x) for x in tail):
+                return True
+    return any(class_union(c) for c in M.children(t))
+
+
+def family(t):
+    if slow_compile(t):
+        return "w/nocase over (or .. classes, one co-finite)"
+    if class_union(t):
+        return "(or classes, one co-finite) merged by char-set-union"
+    return "other"
 
 
 _strata = {}
@@ -104,7 +127,9 @@ _excluded = {}
 def stratum(name):
     if name not in _strata:
         if name == "NC":
-            _strata[name] = [t for t in _stratum("D2u") if slow_compile(t)]
+            cof = [("any",), ("not", "a")]
+            _strata[name] = ([("nocase", ("or", x, y)) for x in (("lit", "b"), ("not", "a"), ("lit", "")) for y in cof] +
+                             [("nocase", ("or", y, ("lit", "b"))) for y in cof])
         else:
             full = _stratum(name)
             keep = [t for t in full if not slow_compile(t)]
@@ -160,10 +185,10 @@ def subjects_for(name):
 # (stratum, subject set, est. ms per pair) in simplest-first order.
 PLAN = {
     "quick": [("A", "S4X", 0.5), ("D1", "S4X", 0.8), ("X", "X", 0.8), ("D2u", "S4X", 1.2), ("D2m", "S4X", 1.2)],
-    # NC first only so that its 16 one-SRE jobs (~100 s of compilation each) overlap with everything else
-    "thorough": [("NC", "S2X", 1.0), ("A", "S4X", 0.5), ("D1", "S4X", 0.8), ("X", "X", 0.8), ("D2u", "S4X", 1.2), ("D2m", "S4X", 1.2),
-                 ("A", "S56", 1.5), ("D1", "S56", 2.5), ("D2u", "S56", 3.5),
-                 ("D2f", "S4", 1.4), ("D3u", "S3", 1.0)],
+    # NC first only so that its 8 one-SRE jobs (~100 s of compilation each) overlap with everything else;
+    # D2f last: it is the largest block, so a deadline leaves a prefix of it.
+    "thorough": [("NC", "S2X", 1.0), ("A", "S4X", 0.5), ("D1", "S4X", 0.8), ("X", "X", 0.8), ("D2u", "S4X", 1.2), ("D2m", "S4X", 1.0),
+                 ("A", "S56", 1.5), ("D1", "S56", 2.5), ("D2u", "S5", 2.5), ("D3u", "S4", 1.2), ("D2f", "S4", 1.0)],
 }
 BOTH = ("A", "D1", "X")          # strata for which regexp-matches? is evaluated next to regexp-matches
 JOB_SECONDS = 8.0
@@ -172,7 +197,11 @@ JOB_SECONDS = 8.0
 def make_jobs(tier):
     jobs = []
     blocks = []
-    for bi, (sn, un, est_ms) in enumerate(PLAN[tier]):
+    plan = PLAN[tier]
+    only = os.environ.get("VERIF_C20_ONLY")          # experiments: restrict to some strata, e.g. "A,D1"
+    if only:
+        plan = [p for p in plan if p[0] in only.split(",")]
+    for bi, (sn, un, est_ms) in enumerate(plan):
         terms = stratum(sn)
         subs = subjects_for(un)
         per = 1 if sn == "NC" else max(1, int(JOB_SECONDS * 1000.0 / (len(subs) * est_ms)))
@@ -258,7 +287,8 @@ class Oracle(object):
         if q not in tab[p]:
             probs.append((which + "-span0", "%s = %r" % (w, s[p:q]), "text in L(sre) at that place"))
         if len(spans) - 1 != len(self.subs):
-            probs.append((which + "-count", str(len(spans) - 1), str(len(self.subs))))
+            # regexp-match-count is not part of the property: noted as an outcome, not asserted
+            probs.append(("note-count", str(len(spans) - 1), str(len(self.subs))))
         for k in range(1, min(len(spans), len(self.subs) + 1)):
             sp = spans[k]
             if sp is None:
@@ -287,6 +317,15 @@ class Oracle(object):
         return None
 
 
+def mutant_env(variant):
+    """VERIF_C20_LIBDIR=<dir> puts <dir> in front of the module path, so that a mutated copy of
+    lib/chibi/regexp.scm can be checked (sensitivity experiments only; /repo is never touched)."""
+    d = os.environ.get("VERIF_C20_LIBDIR")
+    if not d:
+        return None
+    return {"CHIBI_MODULE_PATH": d + ":" + build.env_for(variant)["CHIBI_MODULE_PATH"]}
+
+
 def run_job(arg):
     variant, job = arg
     bi, sn, un, lo, hi = job
@@ -297,7 +336,7 @@ def run_job(arg):
     d = common.scratch_dir("c20")
     path = os.path.join(d, "job.scm")
     common.write_file(path, driver_text(terms, subs, both))
-    res = common.evalbatch(variant, [path], timeout=1500, cwd=d)
+    res = common.evalbatch(variant, [path], timeout=1500, cwd=d, env=mutant_env(variant))
     shutil.rmtree(d, ignore_errors=True)
     lines = []
     for l in res.out.split("\n"):
@@ -370,12 +409,16 @@ def run_job(arg):
                 mism(t, s, "matches", "a match" if pm else "#f", "a match" if want_m else "#f")
             elif pm is not None:
                 for op, got, want in orc.check_spans("matches", pm, s, tab):
-                    mism(t, s, op, got, want)
+                    if op == "note-count":
+                        bump("regexp-match-count differs from the number of ($ ..)/(-> ..) in the SRE")
+                    else:
+                        mism(t, s, op, got, want)
             if (ps is not None) != want_s:
                 mism(t, s, "search", "a match" if ps else "#f", "a match" if want_s else "#f")
             elif ps is not None:
                 for op, got, want in orc.check_spans("search", ps, s, tab):
-                    mism(t, s, op, got, want)
+                    if op != "note-count":
+                        mism(t, s, op, got, want)
             for pr in (pm, ps):
                 if pr is not None and len(pr[0]) > 1:
                     nset = sum(1 for x in pr[0][1:] if x is not None)
@@ -413,7 +456,7 @@ def run_single(variant, sre_text, s):
     d = common.scratch_dir("c20r")
     path = os.path.join(d, "one.scm")
     common.write_file(path, single_text(sre_text, s))
-    res = common.evalbatch(variant, [path], timeout=120, cwd=d)
+    res = common.evalbatch(variant, [path], timeout=600, cwd=d, env=mutant_env(variant))
     shutil.rmtree(d, ignore_errors=True)
     for l in res.out.split("\n"):
         if l.startswith("0 "):
@@ -423,7 +466,7 @@ def run_single(variant, sre_text, s):
 
 def replay(path):
     build.build_variant("opt")
-    res = common.evalbatch("opt", [path], timeout=120)
+    res = common.evalbatch("opt", [path], timeout=900, env=mutant_env("opt"))
     print(res.out)
     print(open(path).read().split(";; expected:")[-1] if ";; expected:" in open(path).read() else "")
     return 0
@@ -484,7 +527,7 @@ def main(tier):
             for k, c in r["outcomes"].items():
                 chk.outcomes[k] += c
             if r["sample"]:
-                chk.sample(r["sample"])
+                chk.sample(r["sample"], cap=3)
             oracle_bad += r["oracle"]
             n_viol_total += r["n_mism"]
             for t, (cnt, exs) in r["bad"].items():
@@ -493,6 +536,8 @@ def main(tier):
                 cur[1] = (cur[1] + exs)[:4]
             if r["crash"]:
                 crashes.append((r["job"], r["crash"]))
+            if done % 100 == 0:
+                log("C20: %d/%d jobs, %d pairs, %d mismatching pairs" % (done, len(jobs), chk.evaluations, n_viol_total))
             if chk.out_of_time():
                 pool.terminate()
                 stopped = True
@@ -502,6 +547,12 @@ def main(tier):
         b["completed"] = b["jobs_done"] == b["jobs"]
         b["cpu_s"] = round(b["cpu_s"], 1)
     chk.cov["blocks"] = blocks
+    for b in blocks:
+        if b["jobs_done"]:
+            ts = stratum(b["stratum"])
+            chk.sample("block %s x %s: SREs %s ... %s; subjects %s ... %s" % (
+                b["stratum"], b["subjects"], M.to_scheme(ts[0]), M.to_scheme(ts[-1]),
+                sstr(subjects_for(b["subjects"])[1]), sstr(subjects_for(b["subjects"])[-1])), cap=24)
     chk.cov["jobs_completed"] = done
     chk.cov["jobs_total"] = len(jobs)
     chk.cov["sres_distinct"] = sum(b["sres"] for b in blocks if b["completed"] and b["subjects"] in ("S4X", "S4", "X", "S3"))
@@ -525,9 +576,15 @@ def main(tier):
     # The first failing case of every group is re-run alone in a fresh process before it is reported (rule 4).
     bad_text = set(M.to_scheme(t) for t in all_bad)
     groups = {}
-    for t in all_bad:
-        subs = sorted(subterms(t), key=lambda x: (len(M.to_scheme(x)), M.to_scheme(x)))
-        culprit = next((x for x in subs if M.to_scheme(x) in bad_text), t)
+    fam_rep = {}
+    for t in sorted(all_bad, key=lambda x: (len(M.to_scheme(x)), M.to_scheme(x))):
+        fam = family(t)
+        if fam != "other":
+            # one report per recognised family (its smallest failing SRE stands for it)
+            culprit = fam_rep.setdefault(fam, t)
+        else:
+            subs = sorted(subterms(t), key=lambda x: (len(M.to_scheme(x)), M.to_scheme(x)))
+            culprit = next((x for x in subs if M.to_scheme(x) in bad_text), t)
         groups.setdefault(culprit, []).append(t)
     chk.cov["mismatching_pairs"] = n_viol_total
     chk.cov["mismatching_sres"] = len(all_bad)
@@ -539,11 +596,11 @@ def main(tier):
         sre_text = M.to_scheme(src)
         alone = run_single(variant, sre_text, s if s is not None else "")
         others = [M.to_scheme(m) for m in members if m is not src]
-        desc = {"op": op, "sre": sre_text, "culprit": M.to_scheme(culprit), "subject": s, "got": got, "want": want,
+        desc = {"op": op, "family": family(src), "sre": sre_text, "culprit": M.to_scheme(culprit), "subject": s, "got": got, "want": want,
                 "alone": alone, "failing_subjects": cnt, "other_examples": exs[1:],
                 "larger_sres_attributed": len(others), "larger_examples": others[:5]}
-        what = "%s: %s on %s: got %s, want %s  [alone in a fresh process the case prints %s; %d mismatches on this SRE; %d larger failing SREs contain it, e.g. %s]" % (
-            op, sre_text, sstr(s) if s is not None else "-", got, want, alone, cnt, len(others), ", ".join(others[:2]) or "-")
+        what = "%s [family: %s]: %s on %s: got %s, want %s  [alone in a fresh process the case prints %s; %d mismatches on this SRE; %d further failing SREs attributed to it, e.g. %s]" % (
+            op, family(src), sre_text, sstr(s) if s is not None else "-", got, want, alone, cnt, len(others), ", ".join(others[:2]) or "-")
         chk.violation(desc, what, single_text(sre_text, s if s is not None else "") +
                       ";; expected: %s -- %s, got %s\n" % (op, want, got))
     for job, (rc, why, tail) in crashes:
